@@ -354,7 +354,11 @@ class Session:
 
         self.compression_method = record.binary[index + 2]
 
-        extensions_length = int.from_bytes(record.binary[index + 3: index + 5], 'big')
+        # the extensions block is optional and ends with the ServerHello message, not with the record
+        hello_end = 4 + int.from_bytes(record.binary[1:4], 'big')
+        extensions_length = 0
+        if index + 5 <= hello_end:
+            extensions_length = int.from_bytes(record.binary[index + 3: index + 5], 'big')
         extensions_bin = record.binary[index + 5: index + 5 + extensions_length]
 
         self.extensions = {}
